@@ -7,6 +7,15 @@ use crate::wiretap::{HostCfg, StackCfg, stack};
 
 use serde_json::json;
 
+/// operations that cannot be reached at all on this tree (listed C01 findings); other properties skip them
+pub const KNOWN_UNREACHABLE: &[&str] = &[
+    "ListBucketAnalyticsConfigurations",
+    "ListBucketIntelligentTieringConfigurations",
+    "ListBucketInventoryConfigurations",
+    "ListBucketMetricsConfigurations",
+    "WriteGetObjectResponse",
+];
+
 pub fn gen_cfg(c: &mut Case<'_>) -> StackCfg {
     let host = match c.t.below(4) {
         0 => HostCfg::Single,
